@@ -87,10 +87,10 @@ CHECKS = {
    note="Hash primitives are trusted (the Go packages the library itself uses, called directly). Leaves not listed as complete enter the tree equations as the library computed them.",
    technique="explicit TLA+ specification of the scheme evaluated by TLC over recorded, audited hash calls of the real code (equational trace validation)"),
  "C07": dict(
-   level="model_checking", design_ref="6 (C07), 3.10, 2(d)",
-   text="DilithiumEq.tla is Dilithium (round 3.1, level 5) as equations over SHAKE as an oracle with plain arithmetic modulo q: seed expansion, the four samplers as functions of byte streams (rejection sampling mod q, eta nibbles, gamma1 unpack, challenge with sign bits), the matrix sampled in the NTT domain with NTT defined by evaluation at the roots of X^256+1 (a butterfly network is proved equal to it on all unit vectors by TLC), Power2Round, Decompose, MakeHint, sparse products, key and signature layouts. Conformance: for seeded (seed, message) TLC recomputes from the seed: rho/key/tr, s1, s2 (complete), t1/t0 at seeded coefficient positions (t = A s1 + s2); and for signing: mu, rho'', y, challenge polynomial, z = y + c s1 and its exact norm for EVERY loop iteration (so every z-rejection and the accepted z are decided exactly; the iteration's challenge seed comes from the signing hook), the packed z and hint canonicity of the signature, and at seeded positions w = A y, its decomposition, c s2, c t0 and the hint bit; signing again in other call orders and from a second object gives identical bytes; the six samplers on crafted boundary streams (t = q-1, q, q+1, top bit, nibbles 14/15).",
-   note="SHAKE is trusted. The dense products are checked at seeded positions, so c~ = H(mu || w1) is not recomputed (it needs all 2048 coefficients of w: about 9 minutes of TLC per signature). Inputs are sampled.",
-   technique="explicit TLA+ specification of the scheme evaluated by TLC with the hash as an oracle (equational trace validation of recorded keys, signatures and loop iterations)"),
+   level="model_checking", design_ref="6 (C07), 3.10, 2(d), 11.3",
+   text="DilithiumEq.tla is a specification-level implementation of Dilithium (round 3.1, level 5) in TLA+: SHAKE is an oracle (the Go standard library in a helper process), everything else is plain arithmetic modulo q evaluated by TLC: seed expansion, the four samplers as functions of byte streams, the matrix sampled in the NTT domain with NTT defined by evaluation at the roots of X^256+1 (forward and inverse butterfly networks in plain arithmetic are proved equal to it on all 256 unit vectors by TLC), Power2Round, Decompose, MakeHint, sparse products, bit packing and the hint codec. Conformance is COMPLETE per sampled input: KeyGen_spec(seed) must equal the library's public and secret key byte for byte; Sign_spec(sk, message) is run iteration by iteration (y, w = A y, w1, c~ = H(mu || pack(w1)), c, z, the three exact norms, all hints) and every iteration must leave through the exit the library logged, the accepted one must give exactly the library's signature bytes (quick: 2 keys, 14 signatures over message lengths around the SHAKE rate and the signature size; thorough: 5 keys, 100 signatures). In addition 1500 (thorough 20000) signatures are checked on the loop's scalars only (every exit decided from exact norms; tests met with equality are sought and counted), signing again in other call orders and from a second object gives identical bytes, and the six samplers are run on crafted boundary streams (t = q-1, q, q+1, top bit, nibbles 14/15).",
+   note="SHAKE-128/256 are trusted (golang.org/x/crypto/sha3 called directly by cmd/hashtool). Seeds and messages are sampled.",
+   technique="explicit TLA+ specification of the whole scheme evaluated by TLC with the hash as an oracle: recorded keys, signatures and loop iterations of the real code must equal KeyGen_spec / Sign_spec byte for byte"),
 }
 
 NOT_YET = {
